@@ -498,6 +498,13 @@ theorem apply_chain {s s' : St} {o : Op} (h : ChainAll s) (e : apply s o = .ok s
   | update m => exact updateState_chain h e
   | fraud au ra hh rev p rw => exact fraud_chain h e
   | obsolete au vs => exact markObsolete_chain h e
+  | punish au a rw => exact punish_chain h (punishProposal_ok e).2
+  | transferOwner sg ra' no =>
+    obtain ⟨r, hg, _, _, _, rfl⟩ := transferOwner_ok e
+    exact RaAll.setRa h ((h.get hg).of_states rfl)
+  | setSeqParams au sp =>
+    obtain ⟨_, hnp, _, rfl⟩ := setSeqParams_ok e
+    exact h.ras_eq rfl
   | begin_ dt => simp only [apply] at e; injection e with e; subst e; exact beginBlock_chain h
   | end_ f => simp only [apply] at e; injection e with e; subst e; exact endBlock_chain h
 
